@@ -58,13 +58,27 @@ def classify(exc):
     return "error:" + type(exc).__name__
 
 
-def step(kind, contents, n, op, target, body, cond, *, world=None):
-    """Returns a dict of facts, or None when the symbolic pre-state is not a valid (reachable) state."""
+def step(kind, contents, n, op, target, body, cond, *, world=None, hist=0, fault_at=None):
+    """Returns a dict of facts, or None when the symbolic pre-state is not a valid (reachable) state.
+
+    hist: what earlier history left in the repository (git never forgets an object):
+      0 nothing but the current commit; 1 an earlier commit holding exactly the state this operation leads to
+      (the operation REVERTS to an earlier state); 2 a blob with the (normalised) body being written.
+    fault_at: the k-th mutation fails with OSError(ENOSPC) and the process keeps running."""
     S = pre_state(contents, n)
     if not SP.invariant(S):
         return None
     w = world or Wm.reset()
-    mstore.install_state(kind, PATH, S)
+    older, extra = (), ()
+    if hist and kind != "vdir":
+        nm = target_name(target, n, kind)
+        if hist == 1:
+            o, S_old = (SP.put(S, nm, body) if op == 0 else SP.delete(S, nm) if op == 1 else ("x", S))
+            if o == "ok" and S_old != S:
+                older = (S_old,)
+        elif op == 0 and SP.valid(nm, body):
+            extra = (SP.norm(nm, body),)
+    mstore.install_state(kind, PATH, S, older=older, extra_blobs=extra)
     mstore.install_state(kind, OTHER, OTHER_STATE)
     other_before = w.snapshot()
     store = mstore.open_store(kind, PATH)
@@ -77,6 +91,7 @@ def step(kind, contents, n, op, target, body, cond, *, world=None):
     facts["obs0"] = mstore.observe(store)
     ret = None
     w.muts = 0
+    w.fault_at = fault_at
     try:
         if op == 0:
             ret = store.import_one(name, None, [body], message="m", replace_etag=etag)
@@ -94,7 +109,8 @@ def step(kind, contents, n, op, target, body, cond, *, world=None):
         want, S2 = SP.delete(S, name, meaning)
     else:
         want, S2 = "ok", S
-    facts.update(outcome=outcome, want=want, S2=S2, ret=ret, store=store, muts=w.muts)
+    w.fault_at = None
+    facts.update(outcome=outcome, want=want, S2=S2, ret=ret, store=store, muts=w.muts, faulted=w.faulted)
     facts["obs1"] = mstore.observe(store)
     fresh = mstore.open_store(kind, PATH)  # restart: new store object, empty caches
     facts["obs_restart"] = mstore.observe(fresh)
